@@ -565,41 +565,68 @@ func TestVerifC12(t *testing.T) {
 		"plus the client address each listener uses (ECS on, miss and background refresh): every listener seam with its own peer address, and the net/http and fasthttp DoH servers (GET and POST) with client_addr_header " +
 		"{not configured: peer address v4/v6/v4-mapped/not an ip:port, configured and present: single value / comma list (first entry) for v4/v6/v4-mapped, configured but absent: unknown}; the front-end's own address never appears in ECS; " +
 		"plus the OPT rule under size limits: every listener seam x client OPT {absent, advertising 0, 100, 512, 513, 1232} x upstream answer of about {100, 600, 1500, 3000} octets x upstream OPT {absent, present}, miss and cache hit; on udp additionally the last answer record's length swept over 0..255 so that the records ahead of the OPT fill the message to every level around the limit"
-	if report.ReplayFile() == nil {
-		// ECS encoder: masking is bitwise, so single-bit + all-ones addresses cover every possible leak
-		n := 0
-		chk := func(a netip.Addr) {
-			n++
-			if !report.Owns(n) {
+	if sh, _ := report.Shard(); report.ReplayFile() == nil && sh == 0 {
+		// ECS encoder: masking is bitwise, so single-bit + all-ones addresses cover every possible leak. Every address is the peer
+		// address of a tcp connection to the real router (ECS on); judged is the option in the upstream query it causes.
+		bubble(t, func() {
+			hmu.Lock()
+			defer hmu.Unlock()
+			cfg := c03Config("forward")
+			cfg.ECS.Enabled = true
+			v, err := vNewRouter(cfg, "u1")
+			if err != nil {
+				rep.Violate("C12:ecs-encoding:router-start", err.Error(), nil)
 				return
 			}
-			b := makeEdns0ClientSubnetReqOpt(a)
-			codes, datas, ok := c12ParseOptions(b)
-			if !ok || len(codes) != 1 || codes[0] != 8 || string(datas[0]) != string(c12ExpectECS(a)) {
-				rep.Violate("C12:ecs-encoding", fmt.Sprintf("ECS option for %s is %x, want payload %x", a, []byte(b), c12ExpectECS(a)), nil)
-			}
-			rep.Eval("ecs:" + a.String())
-		}
-		for bit := 0; bit <= 32; bit++ {
-			var v uint32 = 0xFFFFFFFF
-			if bit < 32 {
-				v = 1 << bit
-			}
-			a4 := netip.AddrFrom4([4]byte{byte(v >> 24), byte(v >> 16), byte(v >> 8), byte(v)})
-			chk(a4)
-			chk(netip.AddrFrom16(a4.As16()))
-		}
-		for bit := 0; bit <= 128; bit++ {
-			var b [16]byte
-			if bit == 128 {
-				for i := range b {
-					b[i] = 0xFF
+			defer v.Close()
+			u := v.ups["u1"]
+			u.Auto = func(q *upQuery) *upResult {
+				if q.Msg == nil {
+					return &upResult{err: errScripted}
 				}
-			} else {
-				b[15-bit/8] = 1 << (bit % 8)
+				return &upResult{wire: env.Answer(q.Msg, 1, 60).Encode(false)}
 			}
-			chk(netip.AddrFrom16(b))
-		}
+			srv := v.newTCPServer(0, 300*time.Second)
+			n := 0
+			chk := func(a netip.Addr) {
+				n++
+				pc := v.tcpClient(srv, netip.AddrPortFrom(a, 4000), vLocalV4)
+				pc.SendMsg(refdns.Query(uint16(n), refdns.N(fmt.Sprintf("enc%d", n), "example", "test"), 1, 1))
+				wait()
+				pc.Close()
+				qs := u.Queries()
+				var b []byte
+				if len(qs) == n && qs[n-1].Msg != nil && len(qs[n-1].Msg.OPTs()) == 1 {
+					b = qs[n-1].Msg.OPTs()[0].RData()
+				}
+				codes, datas, ok := c12ParseOptions(b)
+				if !ok || len(codes) != 1 || codes[0] != 8 || string(datas[0]) != string(c12ExpectECS(a)) {
+					rep.Violate("C12:ecs-encoding", fmt.Sprintf("ECS option for client %s is %x (%d upstream queries for %d clients), want payload %x", a, b, len(qs), n, c12ExpectECS(a)), nil)
+				}
+				rep.Eval("ecs:" + a.String())
+			}
+			for bit := 0; bit <= 32; bit++ {
+				var v uint32 = 0xFFFFFFFF
+				if bit < 32 {
+					v = 1 << bit
+				}
+				a4 := netip.AddrFrom4([4]byte{byte(v >> 24), byte(v >> 16), byte(v >> 8), byte(v)})
+				chk(a4)
+				chk(netip.AddrFrom16(a4.As16()))
+			}
+			for bit := 0; bit <= 128; bit++ {
+				var b [16]byte
+				if bit == 128 {
+					for i := range b {
+						b[i] = 0xFF
+					}
+				} else {
+					b[15-bit/8] = 1 << (bit % 8)
+				}
+				chk(netip.AddrFrom16(b))
+			}
+			wait()
+		})
 	}
 	srcReplay, sizeReplay := false, false
 	if rp := report.ReplayFile(); rp != nil {
